@@ -71,6 +71,18 @@ CHECKS = {
         design_ref="DESIGN.md section 8, C14",
         technique="Lean 4 theorems about the split/join/rebuild specification + exact correspondence of the real splitter and rebuilder with it",
     ),
+    "C02": dict(
+        category="translation_validation",
+        text=("Every specification the real front end produces (all split modes, rules on/off, a systematic corpus of access pairs at "
+              "constant/unaligned/symbolic+constant offsets) is given to Lean: `Spec.firstConflict` demands that any two accesses whose "
+              "ranges or keys are not provably disjoint (Norm.disjoint_sound, keysDiffer_sound) and one of which writes are ordered by "
+              "the declared dependences plus data flow, and `Spec.scheduleMatches` compares the specification evaluated under the "
+              "canonical, reversed and random admissible schedules with the symbolic execution of the block through the proved "
+              "normaliser. schedule_indep (kernel-checked) is the abstract reason why ordered conflicts make all admissible schedules "
+              "agree; its instantiation to evalSpec is argued in DESIGN.md, not proved (partial)."),
+        design_ref="DESIGN.md section 8, C02",
+        technique="Lean conflict-ordering check + schedule evaluation against proved symbolic execution, over real specifications; abstract schedule-independence theorem",
+    ),
 }
 
 NOT_APPLICABLE = [
